@@ -53,6 +53,25 @@ def gen_structured(rng, n):
     return out
 
 
+def gen_pairs():
+    """header and name pairs that differ only by padding or comments, and leading / trailing empty pieces: the
+    places where 'is this the same category / name' and 'what is the first name of the line' can go wrong"""
+    out = []
+    pads = ["", " ", "\t", "\u00a0", "\u3000"]
+    for a in pads:
+        for b in pads:
+            out.append("[%sa%s]\nx\n[a]\ny\n" % (a, b))
+            out.append("[a]\nx\n[%sa%s]\ny" % (a, b))
+            out.append("[c]\n%sx%s|y\nx\n" % (a, b))
+            out.append("[c]\nx|%sx%s\n" % (a, b))
+            out.append("[c]%s// note\nx\n[d]%s//\ny\n" % (a, b))
+            out.append("[c]\nx%s// n|m\n%sy|z // k\n" % (a, b))
+    for line in ["|tuna|atun", " | x", "tuna|", "tuna||atun", "||", "| |x", "x| |", "\u00a0|x"]:
+        out.append("[c]\n%s\n" % line)
+        out.append("[c]\n%s\n[d]\nq|%s\n" % (line, line.strip("|") or "r"))
+    return out
+
+
 def fields(line):
     d = {}
     for part in line.split(" ; "):
@@ -82,6 +101,7 @@ def run(rep, tier, seed):
     else:
         ex = list(enum_strings(ALPHA_A, 6)) + list(enum_strings(ALPHA_B, 4))
         structured = gen_structured(rng, 60000)
+    structured = gen_pairs() + structured
     inputs = list(dict.fromkeys([unhx(c) for c in corpus] + ex + structured))
     cases = [hx(s) for s in inputs]
     impl = common.run_lines(os.path.join(bindir, "aisle"), cases, tag="impl")
